@@ -240,6 +240,16 @@ impl Gen {
     pub fn file_node(&mut self, cfg: &GenCfg, dup_of: Option<(usize, u64, usize)>) -> TNode {
         let (size, cseed, period) = match dup_of {
             Some(d) => d,
+            None if self.r.chance(1, 30) => {
+                // all zero bytes, a page or more
+                let blk = cfg.opts.max_block_size;
+                let mut sizes = vec![4096usize, 4097, 8192, 12_288];
+                if (2048..=8192).contains(&blk) {
+                    sizes.push(2 * blk);
+                    sizes.push(blk + 4096);
+                }
+                (*self.r.pick(&sizes), 0, 0)
+            }
             None => (self.size(cfg), self.cseed(), 0),
         };
         TNode {
